@@ -78,6 +78,39 @@ Theorem udf_parse_layout_anystart_refuted :
     udf_parse s fuel (view (udf_layout s t)) 2 <> POk (ugraph_of (udf_layout s t)).
 Proof. exists (-11), up_neg_witness, 3%nat. split; [reflexivity|]. split; [cbn; lia|]. vm_compute. discriminate. Qed.
 
+(* whatever open answers on the image of a well-formed tree IS the writer's graph: every statement of
+   UdfParseSharesProofs.v / UdfParseReopenProofs.v about ugraph_of is a statement about the opened object *)
+Corollary udf_parse_is_writer_graph s t fuel g : wf_utree t = true -> 0 <= s -> (ul_count_dirs t <= fuel)%nat ->
+  udf_parse s fuel (view (udf_layout s t)) 2 = POk g -> g = ugraph_of (udf_layout s t).
+Proof.
+  intros Hwf Hs Hfuel H. pose proof (udf_parse_layout s t fuel Hwf Hs Hfuel) as H2.
+  change (fst (view (udf_layout s t))) with 2 in H2. rewrite H2 in H. inversion H. reflexivity.
+Qed.
+
+(* ---- images that also have ISO9660 names (the walk starts from the Inodes of the ISO9660 walk) ---- *)
+(* a NON-empty file with an ISO9660 name and a UDF name: the UDF File Entry finds the Inode the ISO9660
+   walk made (same first data block): one Inode, as in the writer *)
+Definition up_mixed_tree (len : Z) : utree := UDir [] [UFile [109] len 0].
+Definition up_mixed_parse (len : Z) (isofiles : list (nat * Z)) (ino0 : layout -> list pinode) : presult ugraph :=
+  let lo := udf_layout_iso 257 (mk_iso 5 isofiles) (up_mixed_tree len) in
+  udf_parse_from 257 (ino0 lo) 3 (snd (view lo)) 2.
+Example udf_parse_mixed_nonempty_shares :
+  exists g, up_mixed_parse 10 [(0%nat, 10)]
+              (fun lo => match ul_find 0 (lo_data lo) with Some d => [mk_pinode (Some d) d 10 []] | None => [] end) = POk g /\
+            length (g_inodes g) = 1%nat /\ map pi_links (g_inodes g) = [[1%nat]].
+Proof. eexists. split; [vm_compute; reflexivity|]. split; reflexivity. Qed.
+
+(* an EMPTY file with an ISO9660 name and a UDF name is ONE inode in the writer; the ISO9660 walk makes
+   an Inode that is entered in no dictionary (extent 0, length 0), so the UDF walk makes a SECOND one:
+   after open rm_file(iso_path=...) no longer removes the UDF name (reproduced on pycdlib:
+   /var/tmp/udfparse/repro_mixed_empty.py) *)
+Theorem udf_parse_shares_mixed_empty_refuted :
+  exists g, up_mixed_parse 0 [] (fun _ => [mk_pinode None 0 0 []]) = POk g /\
+            length (g_inodes g) = 2%nat /\ map pi_links (g_inodes g) = [[]; [1%nat]].
+Proof. eexists. split; [vm_compute; reflexivity|]. split; reflexivity. Qed.
+
 Print Assumptions udf_parse_layout.
 Print Assumptions udf_parse_rejects_nothing_valid.
 Print Assumptions udf_parse_layout_anystart_refuted.
+Print Assumptions udf_parse_is_writer_graph.
+Print Assumptions udf_parse_shares_mixed_empty_refuted.
